@@ -232,7 +232,7 @@ struct Instance {
             Seen s; s.table = id; s.port = ii; s.obj = d.obj; s.dport = d.port; s.idx0 = d.idx[0];
             if (d.loc) { s.loc = d.loc; s.has_loc = true; }
             if (record) seen.push_back(s);
-            if (inner) inner(m, d);
+            if (inner && d.obj) inner(m, d);   // rRecurspCb hands down NULL element pointers unchecked; the toggle would dereference them (application hazard, no listed property)
           });
         }
         v.push_back(p);
@@ -342,7 +342,7 @@ struct Instance {
         if (dpos != std::string::npos) idx = atoi(comp.c_str() + dpos);
         if ((pp.kind == RECURS || pp.kind == RECURSP) && idx > 3) continue;  // cannot be generated (N<=4)
         void *co = child_obj(table, obj, pp.kind == MULTI ? (int)RECUR : pp.kind, idx);
-        if (!co) continue;  // NULL pointer sub-tree: nothing below is reachable
+        if (!co && pp.kind != RECURSP) continue;  // rRecurpCb returns on a NULL pointer; rRecurspCb hands a NULL element down unchecked
         int child = table_id(table_level(table) + 1, child_variant(pp.kind));
         expect(child, co, rest.substr(s + 1), tags, loc + comp + "/", out, unspecified);
       }
